@@ -14,6 +14,8 @@ def configs(tier):
         ('extend: 2docs x 2occ x 2slots', dict(family='one_level', fam_kw=dict(docs=2, occ=2, slots=2, attrs=0, text=False, leaf_form=False, p_form=False, pool=2))),
         ('nested 2occ x 2slots x 1grandchild', dict(family='one_level', fam_kw=dict(occ=2, slots=2, gslots=1, attrs=0, text=False, leaf_form=False, p_form=False, pool=2))),
         ('namespace-prefixed root, parent and children 3occ x 2slots', dict(family='one_level', fam_kw=dict(occ=3, slots=2, attrs=0, text=False, leaf_form=False, rname='h:r', pname='h:p', names=['ns:c', 'c', 'h:p']))),
+        ('sibling names with equal PascalCase / snake_case forms 3occ x 2slots', dict(family='one_level', fam_kw=dict(occ=3, slots=2, attrs=0, text=False, leaf_form=False, names=['Foo', 'foo', 'a-b', 'a_b']))),
+        ('nested with element forms 2occ x 1slot x 1grandchild', dict(family='one_level', fam_kw=dict(occ=2, slots=1, gslots=1, attrs=0, text=False, leaf_form=True, p_form=True, pool=2))),
         ('rendered schema 2occ x 2slots + attr + text', dict(family='one_level', fam_kw=dict(occ=2, slots=2, attrs=1, text=True, leaf_form=False, pool=2), render='quick_xml_de')),
     ]
     if tier == 'quick': return q
